@@ -147,15 +147,23 @@ def TS.atoms (ts : TS) : List Atom :=
 /-- which code is modelled. `mergeLaterSpecs = false`: the aggregator is built once, from the first
 non-empty response (`if ctx.groupAgg == nil`), later specs are not looked at.
 `crossFeed = true`: `fieldAggregator.Aggregate` ignores `pIt.AggType()` and feeds every incoming
-primitive series into every kind of the aggregator. The driver takes both from the regenerated
+primitive series into every kind of the aggregator; `crossFeed = false`: only into the kind the
+primitive series carries (`fallbackCross`: into every kind when it carries none of them). The driver takes both from the regenerated
 facts; `Variant.code` is lindb as it is. -/
 structure Variant where
   mergeLaterSpecs : Bool
   crossFeed : Bool
+  /-- only meaningful with `crossFeed = false`: a primitive series whose kind byte is NOT one of the
+  aggregator's kinds is still fed into every kind (the fallback of fix commit eb2ea99) -/
+  fallbackCross : Bool := false
   deriving DecidableEq, Repr
 
-def Variant.code : Variant := ⟨false, true⟩
-def Variant.repaired : Variant := ⟨true, false⟩
+/-- lindb at the pinned commit -/
+def Variant.code : Variant := ⟨false, true, false⟩
+/-- both repairs of fixes/ -/
+def Variant.repaired : Variant := ⟨true, false, false⟩
+/-- /repo after fix commit eb2ea99 (merge by aggregate type, cross-feeding only as fallback) -/
+def Variant.byType : Variant := ⟨false, false, true⟩
 
 /-! ### the grouping aggregator -/
 
@@ -197,7 +205,8 @@ def addAtom (v : Variant) (specs : List Spec) (cap : Nat) (c : Cells) (a : Atom)
   | some ks =>
     if a.s < cap then
       fun t f k s =>
-        if t = a.t ∧ f = a.f ∧ s = a.s ∧ ks.contains k ∧ (v.crossFeed ∨ k.code = a.kind) then
+        if t = a.t ∧ f = a.f ∧ s = a.s ∧ ks.contains k ∧
+            (v.crossFeed ∨ k.code = a.kind ∨ (v.fallbackCross ∧ ks.all (fun k' => k'.code != a.kind))) then
           (match c t f k s with
            | none => some a.v
            | some x => some (k.agg x a.v))
@@ -293,6 +302,13 @@ def Ctx.absorb (v : Variant) (c : Ctx) : Resp → Ctx
 /-- `HandleResponse` = `handleResponse` + `tryClose` -/
 def Ctx.handle (v : Variant) (c : Ctx) (r : Resp) : Ctx :=
   let c1 := Ctx.absorb v { c with expect := c.expect - 1 } r
+  { c1 with done := c1.done || decide (c1.expect ≤ 0) || c1.err.isSome }
+
+/-- `baseTaskContext.Complete(err)`: called by the search pipeline's completion callback once the
+plan is made and every request is sent (`err = nil`), or with the planning/sending error. It
+OVERWRITES `ctx.err`, then `tryClose`. -/
+def Ctx.complete (c : Ctx) (e : Option ErrKind) : Ctx :=
+  let c1 := { c with err := e }
   { c1 with done := c1.done || decide (c1.expect ≤ 0) || c1.err.isSome }
 
 def Ctx.handleAll (v : Variant) (c : Ctx) (rs : List Resp) : Ctx := rs.foldl (Ctx.handle v) c
